@@ -8,6 +8,7 @@ import (
 	"net/http/httptest"
 	"os"
 	"sort"
+	"strconv"
 	"strings"
 	"sync"
 	"time"
@@ -166,6 +167,7 @@ func NewWorld(cfg WorldConfig) (*World, error) {
 	w := &World{Cfg: cfg, cidOwner: map[string]int{}, newActor: -1, qevSubjects: map[string]string{},
 		tokens: map[int][]string{}, closedAt: map[int]int{}}
 	w.mq = newMockMQ(w)
+	w.step = -1 // start-up entries belong to no script step
 	w.Svc = newService(cfg.Resources)
 	w.logr = &nullLogger{}
 	var sc server.Config
@@ -433,7 +435,28 @@ func (w *World) execOne(op Op) {
 		if c == nil || !c.Dialed || c.Closed || c.EOF {
 			return
 		}
-		w.logMQ(LogEntry{Kind: "cframe", Conn: c.Idx, Payload: []byte(op.P)})
+		t := w.logMQ(LogEntry{Kind: "cframe", Conn: c.Idx, Payload: []byte(op.P)})
+		// a frame that is a JSON object with an unsigned integer id and a string
+		// method is a request in the sense of C07 and must be answered
+		var f struct {
+			ID     json.RawMessage `json:"id"`
+			Method json.RawMessage `json:"method"`
+			Params json.RawMessage `json:"params"`
+		}
+		if json.Unmarshal([]byte(op.P), &f) == nil && len(f.ID) > 0 {
+			if id, err := strconv.ParseUint(string(f.ID), 10, 63); err == nil {
+				method, isStr := "", true
+				if len(f.Method) > 0 && string(f.Method) != "null" {
+					isStr = json.Unmarshal(f.Method, &method) == nil
+				}
+				c.Ref.NoteRequest(id, method, string(f.Params), t, w.step)
+				// a non-string method is outside the statement's precondition: a response is allowed, not required
+				c.Ref.Reqs[id].Optional = !isStr
+				if id >= c.NextID {
+					c.NextID = id + 1
+				}
+			}
+		}
 		c.write([]byte(op.P))
 	case "close":
 		c := w.client(op.C)
